@@ -2,7 +2,8 @@
 
 Contracts on falcon/routing/static.py: _set_range, _BoundedFile.read,
 StaticRoute.__call__ (call-site containment obligation at every _open_file),
-StaticRoute.match.
+StaticRoute.match, StaticRoute.__init__ (normal form), _open_file (operating-system
+model), StaticRouteAsync.__call__ / _AsyncFileReader (ASGI adapter).
 """
 from __future__ import annotations
 
@@ -539,20 +540,315 @@ def static_match(v):
         v.check('matches-exactly-paths-under-the-prefix', Iff(out.value, Or(under, And(bool(has_fb), bare))))
 
 
+# ---------------------------------------------------------------------------
+# StaticRoute.__init__: the normal form that the __call__ / match harnesses start from (they build the route with
+# v.obj, without running __init__) is established here, for every way of giving the optional arguments.
+
+
+def _init_setup(reg, ex):
+    import os
+
+    reg.add_model(os.path.normpath, lambda I, p: mk_str(NORMPATH(_s(p)), 'str') if isinstance(p, SStr) else os.path.normpath(p))
+    reg.add_model(os.path.join, lambda I, a, b: _posix_join(a, b))
+    reg.add_model(os.path.isabs, lambda I, p: p.startswith(SEP))  # posixpath.isabs
+    # whether the fallback path names an existing regular file is a fact of the file system: opaque
+    reg.add_model(os.path.isfile, lambda I, p: I.ctx.choose(2, 'fallback-is-a-file?') == 1)
+
+
+def _norm(x):
+    return mk_str(NORMPATH(_s(x)), 'str') if isinstance(x, SStr) else _osp.normpath(x)
+
+
+@harness(PROP, SR + '.__init__', setup=_init_setup)
+def static_init(v):
+    v.expect_covers('constructed', 'refused')
+    prefix = v.str('prefix')
+    directory = v.str('directory')
+    kw = {}
+    # optional arguments: omitted (the default applies) or given, each value
+    downloadable = False
+    if v.choose(2, 'downloadable-given?'):
+        downloadable = kw['downloadable'] = v.bool('downloadable')
+    fb_kind = v.choose(3, 'fallback-argument')  # omitted / None / a file name
+    fb = None
+    if fb_kind == 1:
+        kw['fallback_filename'] = None
+    elif fb_kind == 2:
+        fb = kw['fallback_filename'] = v.str('fallback_filename')
+    route = v.obj(SR)
+    if v.concrete and fb is not None:
+        return  # os.path.isfile asks the real file system; not meaningful for a model's file name
+    out = v.call(route, prefix, directory, **kw)
+    ndir = _norm(directory)
+    is_file = any(l.startswith('fallback-is-a-file?=1') for l in (getattr(v.ctx, 'labels', None) or []))
+    refused = Or(Not(prefix.startswith(SEP)), Not(ndir.startswith(SEP)))
+    if fb is not None and not is_file:
+        refused = True
+    v.check('refuses-exactly-a-relative-prefix-a-relative-directory-or-a-fallback-that-is-no-file', Iff(out.exc is not None, refused))
+    if out.exc is not None:
+        v.check('only-ValueError-escapes', out.exc.isa(ValueError))
+        v.cover('refused')
+        return
+    g = lambda n: v.get(route, n)
+    v.check('directory-stored-normalized', g('_directory') == ndir)
+    v.check('prefix-stored-with-a-trailing-separator-added-only-when-missing',
+            g('_prefix') == Ite(prefix.endswith(SEP), prefix, prefix + SEP))
+    # what StaticRoute.__call__ / match rely on (assumed by their harnesses)
+    v.check('normal-form-absolute-directory-and-prefix-between-separators',
+            And(g('_directory').startswith(SEP), g('_prefix').startswith(SEP), g('_prefix').endswith(SEP)))
+    if fb is None:
+        v.check('no-fallback-unless-one-was-given', g('_fallback_filename') is None)
+    else:
+        v.check('fallback-stored-as-normalized-path-relative-to-the-directory',
+                g('_fallback_filename') is not None and g('_fallback_filename') == _norm(_posix_join(ndir, fb) if isinstance(fb, SStr) else _osp.join(ndir, fb)))
+    dl = g('_downloadable')
+    v.check('downloadable-flag-stored-as-given-and-off-by-default', Iff(dl, downloadable) if not isinstance(dl, bool) or not isinstance(downloadable, bool) else dl is downloadable)
+    v.cover('constructed')
+
+
+# ---------------------------------------------------------------------------
+# _open_file: the only place that touches the file system.  Anything the operating system refuses is a 404,
+# and a file that was opened but cannot be stat'ed is closed again.
+
+
+@stubclass
+class _OsFile:
+    def __init__(self, v):
+        self.v = v
+        self.closes = 0
+
+    def fileno(self):
+        return 7
+
+    def close(self):
+        self.closes += 1
+
+
+def _open_setup(reg, ex):
+    import io
+    import os
+
+    def m_open(I, path, mode='r', *a, **k):
+        st = I.ctx.ghost  # per-path ghost state
+        st['calls'] = st.get('calls', []) + [(path, mode, a, k)]
+        if I.ctx.choose(2, 'open-fails?') == 1:
+            I.ctx.raise_py(one_of_os_errors(I), 'open failed')
+        st['fh'] = _OsFile(None)
+        return st['fh']
+
+    def one_of_os_errors(I):
+        return [FileNotFoundError, PermissionError, IsADirectoryError, OSError][I.ctx.choose(4, 'errno')]
+
+    def m_fstat(I, fd):
+        st = I.ctx.ghost
+        if I.ctx.choose(2, 'fstat-fails?') == 1:
+            I.ctx.raise_py(OSError, 'fstat failed')
+        st['stat'] = _Stat(I.ctx.fresh_int('st_size'))
+        return st['stat']
+
+    reg.add_model(io.open, m_open)
+    reg.add_model(os.fstat, m_fstat)
+
+
+@harness(PROP, M + ':_open_file', setup=_open_setup)
+def open_file(v):
+    v.expect_covers('opened', 'open-failed', 'stat-failed')
+    path = v.str('file_path')
+    if v.concrete:
+        return  # the operating system is a model in this harness
+    out = v.call(path)
+    st = v.ctx.ghost
+    calls = st.get('calls', [])
+    v.check('opens-exactly-the-given-path-once-for-binary-reading',
+            len(calls) == 1 and calls[0][0] is path and calls[0][1] == 'rb' and not calls[0][2] and not calls[0][3])
+    fh = st.get('fh')
+    if out.exc is not None:
+        v.check('every-operating-system-refusal-is-a-404', out.exc.isa(v.real('falcon:HTTPNotFound')))
+        if fh is not None:
+            v.check('file-closed-again-when-it-cannot-be-stat-ed', fh.closes == 1)
+            v.cover('stat-failed')
+        else:
+            v.cover('open-failed')
+        return
+    v.check('returns-the-open-file-and-its-own-stat', out.value[0] is fh and out.value[1] is st.get('stat') and fh.closes == 0)
+    v.cover('opened')
+
+
+# ---------------------------------------------------------------------------
+# ASGI: StaticRouteAsync.__call__ is the synchronous responder (contract above, used here as a callee contract)
+# plus a non-blocking adapter around the stream; the adapter hands reads and close through unchanged.
+
+from pyvc.harness import Ready
+
+SRA = M + ':StaticRouteAsync'
+AFR = M + ':_AsyncFileReader'
+
+
+@stubclass
+class _Loop:
+    """The running event loop: run_in_executor(executor, fn) runs fn() (on a worker thread) and resolves to its result."""
+
+    def __init__(self):
+        self.jobs = []
+
+    def run_in_executor(self, executor, fn, *args):
+        self.jobs.append(executor)
+        return Ready(fn(*args))
+
+
+def _async_setup(reg, ex):
+    import asyncio
+    import functools
+
+    reg.add_model(asyncio.get_running_loop, lambda I: I.ctx.ghost.setdefault('loop', _Loop()))
+    reg.add_model(functools.partial, lambda I, f, *a, **k: functools.partial(f, *a, **k))
+    reg.inline.add(AFR + '.__init__')
+
+    def sync_call(I, self, req, resp, **kw):
+        g = I.ctx.ghost
+        g['sync_calls'] = g.get('sync_calls', []) + [(self, req, resp, kw)]
+        # callee contract of StaticRoute.__call__: raises (404 / 416 / 400), or answers without a body
+        # (OPTIONS, 304: resp.stream stays None), or sets resp.stream to the file / the bounded file
+        how = I.ctx.choose(3, 'synchronous-responder')
+        if how == 0:
+            I.ctx.raise_py(g['v'].real('falcon:HTTPNotFound'))
+        if how == 2:
+            g['file'] = GhostFile(g['v'], I.ctx.fresh_int('size'))
+            resp.stream = g['file']
+
+    reg.stubs[SR + '.__call__'] = sync_call
+
+
+@harness(PROP, SRA + '.__call__', setup=_async_setup)
+def static_call_async(v):
+    v.expect_covers('wrapped', 'no-body', 'raised')
+    # the adapter's behaviour must not depend on the route configuration or the request: all of it is arbitrary here
+    route = v.obj(SRA, _directory=v.str('directory'), _fallback_filename=(v.str('fallback_filename') if v.choose(2, 'fallback?') else None),
+                  _prefix=v.str('prefix'), _downloadable=v.bool('downloadable'))
+    req = _SReq(v, v.str('path'), v.str('method'), plain=True)
+    resp = _SResp(v)
+    if v.concrete:
+        return  # the synchronous responder is a callee contract in this harness
+    v.ctx.ghost['v'] = v
+    out = v.call(route, req, resp)
+    g = v.ctx.ghost
+    calls = g.get('sync_calls', [])
+    v.check('delegates-once-to-the-synchronous-responder-with-the-same-request-and-response',
+            len(calls) == 1 and calls[0][0] is route and calls[0][1] is req and calls[0][2] is resp and not calls[0][3])
+    how = [int(l.split('=')[1]) for l in v.ctx.labels if l.startswith('synchronous-responder=')]
+    how = how[0] if how else None
+    if how == 0:
+        v.check('errors-of-the-synchronous-responder-propagate-unchanged', out.exc is not None and out.exc.isa(v.real('falcon:HTTPNotFound')) and resp.stream is None)
+        v.cover('raised')
+        return
+    v.check('no-exception-of-its-own', out.exc is None)
+    if out.exc is not None:
+        return
+    if how == 1:
+        v.check('a-response-without-a-body-stays-without-a-body', resp.stream is None)
+        v.cover('no-body')
+        return
+    rd = resp.stream
+    is_reader = getattr(rd, '_cls', None) is v.real(AFR)
+    v.check('stream-is-a-non-blocking-reader-over-the-very-file-the-synchronous-responder-chose',
+            is_reader and v.get(rd, '_file') is g['file'] and v.get(rd, '_loop') is g.get('loop'))
+    v.check('wrapping-neither-reads-nor-closes-the-file', g['file'].pos == 0 and not g['file'].closed)
+    v.cover('wrapped')
+
+
+def _reader(v):
+    fsize = v.int('fsize', 0)
+    data = v.bytes('file')
+    v.assume(Len(data) == fsize)
+    fh = GhostFile(v, fsize, data)
+    pos0 = v.int('pos0', 0)
+    v.assume(pos0 <= fsize)
+    fh.pos = pos0
+    loop = _Loop()
+    return fh, data, pos0, loop, v.obj(AFR, _file=fh, _loop=loop)
+
+
+@harness(PROP, AFR + '.read', setup=_async_setup)
+def async_reader_read(v):
+    fh, data, pos0, loop, rd = _reader(v)
+    given = v.choose(2, 'size-given?')
+    size = v.int('size') if given else -1
+    if v.concrete:
+        return  # needs a running event loop
+    out = v.call(rd, size) if given else v.call(rd)
+    v.check('no-exception', out.exc is None)
+    if out.exc is not None:
+        return
+    n = Len(out.value)
+    v.check('returns-exactly-what-the-file-read-returned', And(out.value == data[pos0 : pos0 + n], fh.pos == pos0 + n, n == fh.last_k))
+    v.check('the-file-is-asked-once-for-the-same-size-all-of-it-by-default', And(fh.last_request == size, len(loop.jobs) == 1))
+    v.check('read-happens-on-the-default-executor-and-leaves-the-file-open', loop.jobs == [None] and not fh.closed)
+    v.cover('read')
+
+
+@harness(PROP, AFR + '.close', setup=_async_setup)
+def async_reader_close(v):
+    fh, data, pos0, loop, rd = _reader(v)
+    if v.concrete:
+        return  # needs a running event loop
+    out = v.call(rd)
+    v.check('no-exception', out.exc is None)
+    v.check('closes-the-file-exactly-once-without-reading', And(fh.closes == 1, fh.pos == pos0))
+    v.cover('closed')
+
+
 KILLS += [
     ('falcon/routing/static.py', "        if '..' in file_path or not file_path.startswith(self._directory):\n            raise falcon.HTTPNotFound()\n", "", 'only-opens-files-inside-the-directory-or-the-fallback'),
     ('falcon/routing/static.py', "        if normalized.startswith(self._DISALLOWED_NORMALIZED_PREFIXES):\n            raise falcon.HTTPNotFound()\n", "", 'only-opens-files-inside-the-directory-or-the-fallback'),
     ('falcon/routing/static.py', "        if req.if_modified_since is not None and last_modified <= req.if_modified_since:", "        if req.if_modified_since is not None and last_modified >= req.if_modified_since:", 'not-modified-yields-304-without-a-body'),
     ('falcon/routing/static.py', "        req_range = req.range if req.range_unit == 'bytes' else None\n", "        req_range = req.range\n", 'range-ignored-unless-unit-is-bytes'),
     ('falcon/routing/static.py', "        resp.set_stream(stream, length)\n", "        resp.set_stream(stream, st.st_size)\n", 'content-length-matches-content-range'),
+    # --- inputs that used to be fixed in the harnesses (audit of constants: each bug needs the newly covered value) ---
+    # read() without an argument (the default was never exercised)
+    ('falcon/routing/static.py', "    def read(self, size: Optional[int] = -1) -> bytes:\n", "    def read(self, size: Optional[int] = 0) -> bytes:\n",
+     '_BoundedFile.read#read-without-argument-asks-the-file-for-the-whole-remaining-slice'),
+    # If-Modified-Since equal to the file's HTTP date (the value a client echoes back); only dates decades away were tried
+    ('falcon/routing/static.py', "        if req.if_modified_since is not None and last_modified <= req.if_modified_since:", "        if req.if_modified_since is not None and last_modified < req.if_modified_since:",
+     'not-modified-yields-304-without-a-body'),
+    # st_mtime with a sub-second part (st_mtime was the constant 0)
+    ('falcon/routing/static.py', "        last_modified = last_modified.replace(microsecond=0)\n", "", 'not-modified-yields-304-without-a-body'),
+    # methods other than GET / OPTIONS
+    ('falcon/routing/static.py', "        if req.method == 'OPTIONS':\n", "        if req.method in ('OPTIONS', 'HEAD'):\n", 'StaticRoute.__call__#a-file-was-opened'),
+    # a malformed Range value in a unit that is ignored (the request stub's accessors never raised)
+    ('falcon/routing/static.py', "        req_range = req.range if req.range_unit == 'bytes' else None\n", "        req_range = req.range\n        if req.range_unit != 'bytes':\n            req_range = None\n",
+     'a-400-escapes-only-from-a-malformed-header-that-had-to-be-read'),
+    # the downloadable flag was False in the containment harness
+    ('falcon/routing/static.py', "        if '..' in file_path or not file_path.startswith(self._directory):\n", "        if not self._downloadable and ('..' in file_path or not file_path.startswith(self._directory)):\n",
+     'only-opens-files-inside-the-directory-or-the-fallback'),
+    # __init__ was never run (routes were built field by field in the normal form)
+    ('falcon/routing/static.py', "        self._downloadable = downloadable\n", "        self._downloadable = downloadable and fallback_filename is None\n", 'StaticRoute.__init__#downloadable-flag-stored-as-given-and-off-by-default'),
+    ('falcon/routing/static.py', "        if not prefix.endswith('/'):\n            prefix += '/'\n", "", 'StaticRoute.__init__#prefix-stored-with-a-trailing-separator-added-only-when-missing'),
+    # _open_file was only a stub
+    ('falcon/routing/static.py', "        if fh is not None:\n            fh.close()\n        raise falcon.HTTPNotFound()\n", "        raise falcon.HTTPNotFound()\n", '_open_file#file-closed-again-when-it-cannot-be-stat-ed'),
+    # ASGI was "by reading"
+    ('falcon/routing/static.py', "partial(self._file.read, size)", "partial(self._file.read)", '_AsyncFileReader.read#the-file-is-asked-once-for-the-same-size-all-of-it-by-default'),
+    ('falcon/routing/static.py', "        if resp.stream is not None:  # None when in an option request\n", "        if resp.stream is not None and not self._downloadable:\n", 'StaticRouteAsync.__call__#stream-is-a-non-blocking-reader'),
 ]
 ASSUMPTIONS = [
-    'os.path.join(a, b) is posixpath.join for two arguments (encoded exactly from its source); os.path.normpath is an uninterpreted total function str -> str',
-    'the configured directory is the normal form established by StaticRoute.__init__ (absolute, normpath-ed: no ".." inside)',
-    'regular files, no symbolic links (lexical containment is what is proved); st_mtime is a fixed instant',
+    'os.path.join(a, b) is posixpath.join for two arguments (encoded exactly from its source); os.path.normpath is an uninterpreted total function str -> str; os.path.isabs is posixpath.isabs (starts with "/")',
+    'the configured directory is the normal form established by StaticRoute.__init__ (stored = normpath(directory), absolute: proved by the __init__ harness); '
+    'that the normpath of an absolute path contains no ".." is a fact about the library function (assumed)',
+    'regular files, no symbolic links (lexical containment is what is proved)',
     'the regular expression search for disallowed characters is an opaque predicate of the path',
-    'Request.range satisfies the post-condition proved in C09 (three RFC 9110 forms)',
+    'Request.range satisfies the post-condition proved in C09 (three RFC 9110 forms) or raises HTTPInvalidHeader; range_unit / if_modified_since return a value or raise '
+    'HTTPInvalidHeader (the request stub _SReq offers every one of these shapes)',
+    # inputs deliberately left fixed (audit of harness constants), with the reason
+    'static_call: directory / prefix / path / fallback name are concrete well-formed strings: everything StaticRoute.__call__ does with them happens before the last '
+    '_open_file call and is covered for ALL strings by static_containment; after the open, file_path only feeds os.path.splitext / basename (opaque models)',
+    'static_call: st_mtime ranges over {0, 86400.75} (a second boundary and a sub-second part) and If-Modified-Since over {absent, malformed, HTTP date of the file -1 s / '
+    '+0 / +1 s, year 2100}: datetime arithmetic runs natively on concrete values, so the comparison is covered at its boundary and far from it, not for every instant',
+    'StaticRoute.__call__ is always called without keyword arguments (the router passes no params to a static route; the function asserts it)',
+    'static_containment: the request carries no conditional / range headers (plain=True): the path ends at the last possible open, before the code reads them',
+    '__init__: directory is a str (a pathlib.Path goes through os.path.normpath, which returns a str); whether the fallback path is an existing file is an opaque file-system fact',
+    'the event loop runs an executor job to completion and resolves to its result (_Loop stub); functools.partial is the library function',
 ]
 NOT_DECIDED = ['the body bytes of a whole-file response equal the file content: follows from the file object being handed over unread at offset 0 (checked) and the server reading it',
-               'StaticRouteAsync / _AsyncFileReader delegation (three lines, by reading)']
-TRUSTED = ['ghost stubs GhostFile, _OpenFile, _SReq, _SResp in contracts/C16_static.py']
+               'Content-Type / Content-Disposition values (os.path.splitext / basename and the static_media_types table are opaque; the property statement does not mention them)',
+               'a 400 raised by a header accessor after the file was opened (malformed If-Modified-Since / bytes range) leaves the file to the garbage collector: '
+               'the statement does not speak about it, no clause demands a close there']
+TRUSTED = ['ghost stubs GhostFile, _OpenFile, _SReq, _SResp, _OsFile, _Loop in contracts/C16_static.py; the io.open / os.fstat models of the _open_file harness']
